@@ -145,6 +145,60 @@ func c05Conc(algo string, forced bool, scratch string, round int) string {
 	return fmt.Sprintf("CONC.%s forced=%d sends=%d failed=2.0+3.0 sent=%s", algo, f, nlog, nEidList(es))
 }
 
+// c05Sentinels: short directed histories that run first (the replay phase has a time budget): one per
+// clause and input class of the property, for every algorithm.
+func c05Sentinels(algos []struct {
+	name string
+	mule bool
+}, only string) []*nHist {
+	ev := func(s string) []nEvent {
+		var out []nEvent
+		for _, f := range strings.Fields(s) {
+			e := nEvent{kind: f[0]}
+			if len(f) > 1 {
+				fmt.Sscanf(f[1:], "%d", &e.tag)
+				e.addr = e.tag
+			}
+			out = append(out, e)
+		}
+		return out
+	}
+	type sent struct{ universe, events string }
+	list := []sent{
+		{"zero-time", "S1 C T U1 C T X C T"},      // clock-less bundle across clean ticks and a restart
+		{"zero-time", "R2 C U1 U2 T"},             // expired bundle is swept
+		{"same-ms", "S1 S2 T U2 T X T"},           // two submissions of one millisecond
+		{"plain", "R2 R2 R2 T U2"},                // repeated reception of a waiting bundle, then its destination
+		{"plain", "S1 R1 T U1 T"},                 // own bundle comes back before it was forwarded
+		{"plain", "U1 S1 T T X U1 T U2 T"},        // failures and retries, restart
+		{"plain", "U1 U2 R2 D2 R2 U2"},            // direct delivery, failure, redelivery
+		{"refused", "U1 R1 R2 S1 T C"},            // hop limit, refused submit
+	}
+	var out []*nHist
+	for _, a := range algos {
+		if only != "" && only != a.name {
+			continue
+		}
+		for i, s := range list {
+			h := c05Base(a.name, a.mule, s.universe)
+			// first attempts fail, later ones succeed (and the other way round for the second half)
+			h.oracle = map[[2]int]string{}
+			for _, p := range h.peers {
+				for _, b := range h.bundles {
+					pat := "0011"
+					if (i+p.addr+b.tag)%2 == 1 {
+						pat = "10"
+					}
+					h.oracle[[2]int{p.addr, b.tag}] = pat
+				}
+			}
+			h.events = ev(s.events)
+			out = append(out, h)
+		}
+	}
+	return out
+}
+
 func TestVerifC05(t *testing.T) {
 	outPath := os.Getenv("VERIF_OUT")
 	if outPath == "" {
@@ -231,7 +285,7 @@ func TestVerifC05(t *testing.T) {
 		}
 		perJob = append(perJob, hs)
 	}
-	hs = nInterleave(perJob)
+	hs = append(c05Sentinels(algos, only), nInterleave(perJob)...)
 	t0 := time.Now()
 	n := nRunAll(hs, scratch, out, nBudget(80*time.Second, 12*time.Minute))
 	fmt.Fprintf(out, "# c05 histories=%d of %d wall=%.1fs seed=%d\n", n, len(hs), time.Since(t0).Seconds(), seed)
